@@ -133,7 +133,8 @@ type blockCrypt struct {
 	encbuf    []byte // encryption working buffer
 	decbuf    []byte // decryption working buffer
 	block     cipher.Block
-	blockSize int // cached block size
+	decBlock  cipher.Block // cipher used by Decrypt; the same object as block unless it keeps state
+	blockSize int          // cached block size
 }
 
 //go:nosplit
@@ -146,7 +147,7 @@ func (c *blockCrypt) Encrypt(dst, src []byte) {
 //go:nosplit
 func (c *blockCrypt) Decrypt(dst, src []byte) {
 	c.decMu.Lock()
-	decrypt(c.block, dst, src, c.decbuf)
+	decrypt(c.decBlock, dst, src, c.decbuf)
 	c.decMu.Unlock()
 }
 
@@ -154,6 +155,7 @@ func newBlockCrypt(block cipher.Block) BlockCrypt {
 	blockSize := block.BlockSize()
 	return &blockCrypt{
 		block:     block,
+		decBlock:  block,
 		blockSize: blockSize,
 		encbuf:    make([]byte, blockSize),
 		decbuf:    make([]byte, 2*blockSize),
@@ -199,7 +201,17 @@ func NewSM4BlockCrypt(key []byte) (BlockCrypt, error) {
 	if err != nil {
 		return nil, err
 	}
-	return newBlockCrypt(block), nil
+	// The gmsm cipher keeps scratch buffers inside the cipher object, so one
+	// instance must not be used by two goroutines at once. Encrypt and Decrypt
+	// run under different mutexes (a session's post-processing and read loop run
+	// concurrently): each path gets an instance of its own.
+	decBlock, err := sm4.NewCipher(key)
+	if err != nil {
+		return nil, err
+	}
+	c := newBlockCrypt(block).(*blockCrypt)
+	c.decBlock = decBlock
+	return c, nil
 }
 
 // NewTwofishBlockCrypt https://en.wikipedia.org/wiki/Twofish
